@@ -1,23 +1,23 @@
 (* driver.ml — trusted glue: reads cases (property name + hex numbers per line), calls the
    extracted model, prints result lines (hex numbers).  No logic lives here. *)
-open Lace_model
+module M = Lace_model
 
-let rec pos_of_int (i : int) : positive =
-  if i = 1 then XH
-  else if i land 1 = 0 then XO (pos_of_int (i lsr 1))
-  else XI (pos_of_int (i lsr 1))
+let rec pos_of_int (i : int) : M.positive =
+  if i = 1 then M.XH
+  else if i land 1 = 0 then M.XO (pos_of_int (i lsr 1))
+  else M.XI (pos_of_int (i lsr 1))
 
-let n_of_int (i : int) : n = if i = 0 then N0 else Npos (pos_of_int i)
+let n_of_int (i : int) : M.n = if i = 0 then M.N0 else M.Npos (pos_of_int i)
 
-let rec int_of_pos (p : positive) : int =
-  match p with XH -> 1 | XO q -> 2 * int_of_pos q | XI q -> 2 * int_of_pos q + 1
+let rec int_of_pos (p : M.positive) : int =
+  match p with M.XH -> 1 | M.XO q -> 2 * int_of_pos q | M.XI q -> 2 * int_of_pos q + 1
 
-let int_of_n (x : n) : int = match x with N0 -> 0 | Npos p -> int_of_pos p
+let int_of_n (x : M.n) : int = match x with M.N0 -> 0 | M.Npos p -> int_of_pos p
 
-let parse_nums (toks : string list) : n list =
+let parse_nums (toks : string list) : M.n list =
   List.map (fun t -> n_of_int (int_of_string ("0x" ^ t))) toks
 
-let print_line oc (l : n list) =
+let print_line oc (l : M.n list) =
   let b = Buffer.create 128 in
   List.iteri (fun i x ->
     if i > 0 then Buffer.add_char b ' ';
@@ -25,12 +25,13 @@ let print_line oc (l : n list) =
   Buffer.add_char b '\n';
   Buffer.output_buffer oc b
 
-let dispatch (name : string) (args : n list) : n list list =
+let dispatch (name : string) (args : M.n list) : M.n list list =
   match name with
-  | "C02" -> run_c02 false args
-  | "C02S" -> run_c02 true args
-  | "C03" -> run_c03 false args
-  | "C03S" -> run_c03 true args
+  | "C02" -> M.run_c02 false args
+  | "C02S" -> M.run_c02 true args
+  | "C03" -> M.run_c03 false args
+  | "C03S" -> M.run_c03 true args
+  | "ASM" -> M.run_asm args
   | _ -> failwith ("unknown case kind " ^ name)
 
 let () =
